@@ -193,21 +193,24 @@ def flipStereo : Stereo → Stereo
   | .e => .z
   | s => s
 
+/-- the body of `DoubleBondStereoConstraint.__call__` once the double bond `e` is fetched -/
+def stereoJudge (s : QStereo) (e : Bond) (x1 x2 : Nat) : Bool :=
+  let tgt := stereoTarget s.kind
+  let judge (st : Stereo) : Bool := (tgt == st && !s.neg) || (tgt != st && s.neg)
+  if e.stereo == .none then judge .none
+  else
+    let nmatch := (([x1, x2].eraseDups).filter (e.stereoAtoms.contains ·)).length
+    if nmatch == 2 || nmatch == 0 then judge e.stereo
+    else if nmatch == 1 then judge (flipStereo e.stereo)
+    else true
+
 /-- `DoubleBondStereoConstraint.__call__` on a candidate `f` -/
 def stereoCons (m : Mol) (f : List Nat) (s : QStereo) : Bool :=
   match f[s.i1]?, f[s.i2]?, f[s.i3]?, f[s.i4]? with
   | some x1, some x2, some x3, some x4 =>
     match m.bondBetween x3 x4 with
     | none => false
-    | some e =>
-      let tgt := stereoTarget s.kind
-      let judge (st : Stereo) : Bool := (tgt == st && !s.neg) || (tgt != st && s.neg)
-      if e.stereo == .none then judge .none
-      else
-        let nmatch := (([x1, x2].eraseDups).filter (e.stereoAtoms.contains ·)).length
-        if nmatch == 2 || nmatch == 0 then judge e.stereo
-        else if nmatch == 1 then judge (flipStereo e.stereo)
-        else true
+    | some e => stereoJudge s e x1 x2
   | _, _, _, _ => false
 
 /-! ## Candidate enumeration (in place of RDKit's, assumption A-cand) -/
